@@ -16,6 +16,81 @@ MANIFEST = dict(technique='TLA+ P-spec Ports + closed model MCPorts (TLC exhaust
 
 SPEC = ['ports']
 NETS = ['n1', 'n2']
+NIC = dict(id=1, mtu=1500, addr4=['10.0.0.1', '10.0.0.2'], addr6=['fd00::1'])
+
+
+def sock_scenario(path, typ):
+    """One SockPorts graph path -> sockd script; every step is followed by an availability query for every tuple."""
+    ops = [dict(op=typ[s], s=s, v=4) for s in (0, 1)]
+    trans = sorted(set(typ))
+    tuples = []
+    for t in trans:
+        for a in ('', '10.0.0.1', '10.0.0.2'):
+            tuples.append([[4], t, a, 5000])
+            for s in (0, 1):
+                tuples.append([[4], t, a, {'lportof': s, 'else': 100 + s}])
+    for st in path:
+        a, args = st['a'], st['args']
+        if a == 'Bind':
+            ops.append(dict(op='bind', s=args[0], addr=args[1], port=0 if args[2] else 5000, _ok=args[3]))
+        elif a == 'Connect':
+            ops.append(dict(op='connect', s=args[0], addr='10.0.0.9', port=7))
+        elif a == 'WriteTo':
+            ops.append(dict(op='write', s=args[0], n=3, seed=1, to=dict(addr='10.0.0.9', port=7)))
+        elif a == 'Listen':
+            ops.append(dict(op='listen', s=args[0], backlog=2))
+        elif a == 'Close':
+            ops.append(dict(op='close', s=args[0]))
+        else:
+            raise vlib.Inconclusive('unknown SockPorts action ' + a)
+        ops.append(dict(op='avail', tuples=tuples))
+    return dict(nics=[NIC], ops=ops)
+
+
+def classify_sock(seg, ln):
+    """F6 shape: a UDP socket was bound, then connected, then closed; the rejected query follows the close."""
+    hist = {}
+    for e in seg[:ln]:
+        if e.get('ev') == 'op' and e.get('op') in ('bind', 'connect', 'close') and e.get('err', '') == '':
+            hist.setdefault(e.get('s'), []).append(e['op'])
+    for s, h in hist.items():
+        if 'bind' in h and 'connect' in h and 'close' in h and h.index('bind') < h.index('connect') < h.index('close'):
+            return 'F6'
+    return None
+
+
+def socket_sweep(ctx):
+    drv = ctx.go_build('sockd')
+    combos = [('udp', 'udp'), ('udp', 'tcp'), ('tcp', 'tcp')]
+    scs = []
+    for typ in combos:
+        mc = '---- MODULE MCSockPorts ----\nEXTENDS SockPorts\nTypDef == (0 :> "%s") @@ (1 :> "%s")\n====\n' % typ
+        c = cfg(constants=dict(Socks=MV('{0, 1}'), LAddrs=MV('{"10.0.0.1", "10.0.0.2"}'), P=5000, MaxOps=ctx.pick(4, 5),
+                               Primary='10.0.0.1', Typ=MV('<- TypDef')), invariants=['Exclusive', 'ClosedHoldsNothing'])
+        c = c.replace('Typ = <- TypDef', 'Typ <- TypDef')
+        r = ctx.tlc('MCSockPorts', c, ['sock'], name='SockPorts-%s-%s' % typ, files={'MCSockPorts.tla': mc}, dump_dot=True, must_pass=True)
+        script, stats = vlib.graph_script(ctx, r)
+        ctx.extra['sock_graph_%s_%s' % typ] = stats
+        for p in script['paths']:
+            scs.append(sock_scenario(p, typ))
+    sp = os.path.join(ctx.work, 'sock-scen.json')
+    tp = os.path.join(ctx.work, 'sock-trace.ndjson')
+    vlib.write_json(sp, [dict(nics=x['nics'], ops=[{k: v for k, v in o.items() if not k.startswith('_')} for o in x['ops']]) for x in scs])
+    ctx.run([drv, 'run', sp, tp], timeout=3000)
+    segs = vlib.split_segments(vlib.read_ndjson(tp))
+    if len(segs) != len(scs):
+        raise vlib.Inconclusive('sockd produced %d segments for %d scenarios' % (len(segs), len(scs)))
+    tc = cfg(spec='TSpec', constraint='HWMark', postcondition='Accepted')
+    acc, rej = vlib.validate_segments(ctx, 'TraceSock', tc, ['sock'], segs, name='sock-trace', timeout=3000, max_reruns=12)
+    ctx.traces += acc
+    ctx.extra['socket_histories'] = len(scs)
+    ctx.sample(dict(kind='socket-history', ops=[{k: v for k, v in o.items() if k != 'tuples'} for o in scs[len(scs) // 2]['ops'] if o['op'] != 'avail'][:8]))
+    for si, ln in rej:
+        ev = segs[si][ln] if ln < len(segs[si]) else {}
+        hist = [(e['op'], e.get('s'), e.get('addr'), e.get('port'), e.get('err')) for e in segs[si][:ln] if e.get('ev') == 'op' and e['op'] not in ('avail',)]
+        ctx.violation('socket-level port reservation behaviour rejected by the P-spec after %s (event %s)' % (hist, ev.get('op')),
+                      dict(kind='socket-history', scenario=scs[si], events=[{k: v for k, v in e.items() if k != 'tuples'} for e in segs[si][:ln + 1]]),
+                      key=classify_sock(segs[si], ln))
 
 
 def tuples(trans, addrs, ports):
@@ -126,6 +201,9 @@ def run(ctx):
     for si, ln in rej:
         ctx.violation('concurrent history not linearizable w.r.t. Ports P-spec (event %d of history)' % ln,
                       dict(kind='race', events=segs[si]))
+
+    # ---- socket level: reservations made at bind/auto-bind, released by Close (every SockPorts graph transition on a real stack)
+    socket_sweep(ctx)
 
     # ---- binding self-test: a corrupted history must be rejected
     import copy
